@@ -336,7 +336,12 @@ func c12LabRows(out *bufio.Writer, lab *Lab, cases []*LabCase, docs map[string][
 				if i := strings.Index(ex, " at="); i >= 0 {
 					at = strings.Fields(ex[i+4:])[0]
 				}
-				verdict = fmt.Sprintf("FAIL encoded-value-rejected format=%s src=%s %s case=%s", c.Format, c12SrcAt(c.Defs, at), ex, c.ID)
+				by := c12ExplainedBy(schema, emitted, c.Defs.Root, got)
+				if by == "" {
+					by = "nothing"
+				}
+				verdict = fmt.Sprintf("FAIL encoded-value-rejected explained-by=%s format=%s src=%s %s case=%s", by, c.Format, c12SrcAt(c.Defs, at), ex, c.ID)
+				stats["rejected-explained-by-"+by]++
 				stats["values-rejected"]++
 			}
 			fmt.Fprintf(out, "jsvalid %s.js %s %s %s\t%s\t%s\t%s\n", c.ID, c.ID, c.Defs.Root, got.sexp(), impl, verdict, got.json())
